@@ -1216,3 +1216,61 @@ def isinstance_classes(prog, func, cond, var):
         elts = c.elts if isinstance(c, (ast.Tuple, ast.List)) else [c]
         return {unparse(e).split(".")[-1] for e in elts}
     return None
+
+
+def concrete_values(cfg, target_id, expr, env0, max_states=4000):
+    """Values `expr` can take when control reaches node `target_id`, the function being entered with the integer
+    locals `env0` (everything else unknown): the CFG is walked from the entry, integer assignments and conditional
+    expressions over known integers are evaluated, tests over known integers prune the other branch, tests that
+    involve anything unknown keep both.  Returns a set of values; None stands for `not computable on some path`."""
+    def ev(e, env):
+        try:
+            names = {n.id for n in ast.walk(e) if isinstance(n, ast.Name)}
+            if not names <= set(env):
+                return None
+            if any(isinstance(n, (ast.Call, ast.Attribute, ast.Subscript, ast.Yield, ast.Await, ast.Lambda)) for n in ast.walk(e)):
+                return None
+            return eval(compile(ast.Expression(ast.fix_missing_locations(_copy_expr(e))), "<v>", "eval"), {"__builtins__": {}}, dict(env))
+        except Exception:  # noqa: BLE001
+            return None
+
+    out = set()
+    seen = set()
+    stack = [(cfg.entry.id, tuple(sorted(env0.items())))]
+    while stack and len(seen) < max_states:
+        x, envt = stack.pop()
+        if (x, envt) in seen:
+            continue
+        seen.add((x, envt))
+        env = dict(envt)
+        n = cfg.nodes[x]
+        if x == target_id:
+            out.add(ev(expr, env))
+            continue
+        if n.kind == "stmt" and isinstance(n.stmt, (ast.Assign, ast.AnnAssign, ast.AugAssign)):
+            st = n.stmt
+            tg = st.targets if isinstance(st, ast.Assign) else [st.target]
+            for t in tg:
+                if isinstance(t, ast.Name):
+                    val = st.value if not isinstance(st, ast.AugAssign) else ast.BinOp(left=ast.Name(id=t.id, ctx=ast.Load()), op=st.op, right=st.value)
+                    v = ev(val, env) if val is not None else None
+                    if isinstance(v, (int, bool)):
+                        env[t.id] = v
+                    else:
+                        env.pop(t.id, None)
+                elif isinstance(t, (ast.Tuple, ast.List)):
+                    for e_ in t.elts:
+                        if isinstance(e_, ast.Name):
+                            env.pop(e_.id, None)
+        elif n.kind in ("for", "with"):
+            for nm in node_local_writes(n):
+                env.pop(nm, None)
+        verdict = ev(n.stmt.test, env) if n.kind == "test" else None
+        nxt = tuple(sorted(env.items()))
+        for t, lab in cfg.succ[x]:
+            if lab == ("exc",):
+                continue
+            if verdict is not None and lab and lab[0] == "cond" and bool(verdict) != lab[2]:
+                continue
+            stack.append((t, nxt))
+    return out
